@@ -190,8 +190,11 @@ def c06(rep):
     u = cu(rep)
     # R06.5 snapshot shape in C
     RO = 'PyObject_GetAttr(PyObject_GetAttr(self, str_registry), strro)'
-    T = 'PyObject_CallFunctionObjArgs(&PyTuple_Type, %s, NULL)' % RO
-    SL = 'PyTuple_GetSlice(%s, 1, PyTuple_GET_SIZE(%s))' % (T, T)
+    # tuple(ro): calling the tuple type with one argument IS PySequence_Tuple
+    TS = ['PyObject_CallFunctionObjArgs(&PyTuple_Type, %s, NULL)' % RO,
+          'PySequence_Tuple(%s)' % RO]
+    SLS = ['PyTuple_GetSlice(%s, 1, PyTuple_GET_SIZE(%s))' % (T, T) for T in TS] + \
+        ['PyTuple_GetSlice(%s, 1, PyTuple_Size(%s))' % (T, T) for T in TS]
     p_snap, p_gen = [], []
     n = 0
     for ps in csem.returning(csem.S(u, 'verify_changed')):
@@ -201,7 +204,7 @@ def c06(rep):
                 p_snap.append('a failing path leaves a partial snapshot')
             continue
         n += 1
-        if st.get('self->_verify_ro') != SL:
+        if st.get('self->_verify_ro') not in SLS:
             p_snap.append('_verify_ro = `%s`' % (st.get('self->_verify_ro') or 'unset')[:90])
         if st.get('self->_verify_generations') != '_generations_tuple(%s)' % \
                 st.get('self->_verify_ro'):
